@@ -119,6 +119,10 @@ def run(ctx):
             ctx.cov["traces_validated_against_impl"] = len(codes)
             ctx.cov["correspondence_skipped"] = skipped
             for code, i in zip(codes, idx):
+                if code & 32:
+                    ctx.broken.append("K_shape: a tree from the real parser violates shape_expr (hypothesis of C13_no_panic)")
+                if code & 64:
+                    ctx.broken.append("K_prepared: a tree from the real Precompute violates prepared_expr (hypothesis of C14_record_unchanged)")
                 if code & 1:
                     ctx.broken.append("K_eval: model and implementation differ on %r / %s" % kc[i])
                 if code & 4:
